@@ -582,9 +582,19 @@ def run_coverage(ck):
 def run(ck):
     if os.environ.get('VERIF_COVERAGE') == '1':
         return run_coverage(ck)
-    n_thm = 18
-    proof_ok, failing = ck.proof_stage('MpVerif.C18.Props', 'MpVerif/C18/Props.lean', 'C18_',
-                                       ['MpVerif/C18/*.lean'], expect_min=n_thm)
+    n_thm = 42
+    # 1. regenerate the Lean description of Equal / hash / HashCombine from the current tree
+    gen = os.path.join(LEAN, 'MpVerif', 'Gen', 'C18.lean')
+    rc, out, err = sh([sys.executable, os.path.join(VERIF, 'translators', 'gen_expr_c18.py'), REPO, gen,
+                       os.path.join(BUILD, 'tr', 'c18')], timeout=600)
+    ck.log((out.strip() or err.strip())[-600:])
+    translator_ok = rc == 0
+    if translator_ok:
+        proof_ok, failing = ck.proof_stage('MpVerif.C18.Props', 'MpVerif/C18/Props.lean', 'C18_',
+                                           ['MpVerif/C18/*.lean', 'MpVerif/Gen/C18.lean'], expect_min=n_thm)
+    else:
+        proof_ok, failing = False, ['translator: ' + (out + err).strip()[-500:]]
+        ck.cov.update({'obligations': n_thm, 'discharged': 0, 'checker_cmd': 'translators/gen_expr_c18.py failed'})
     ck.log('proof stage: ok=%s failing=%s' % (proof_ok, failing[:10]))
     if ck.tier == 'thorough' and proof_ok:
         bad = ck.leanchecker(['MpVerif.C18.Props'])
